@@ -88,8 +88,8 @@ def gen_scenario(rng, focus="mixed", length=None):
                 ev = ("cancel", rng.choice(live)[0])
             elif x < 0.91:
                 ev = ("data",)
-            elif x < 0.94 and focus in ("close", "mixed"):
-                ev = rng.choice([("close",), ("lost",), ("reset_begin",), ("reset_end",)])
+            elif x < (0.99 if focus == "close" else 0.94) and focus in ("close", "mixed"):
+                ev = rng.choice([("close",), ("lost",), ("lost",), ("reset_begin",), ("reset_end",)])
             else:
                 ev = ("tick", rng.choice([500, 1000, 5000]))
             events.append(ev)
